@@ -4,6 +4,7 @@ import (
 	"fmt"
 	"math/big"
 	"math/bits"
+	"slices"
 	"strconv"
 	"strings"
 )
@@ -38,6 +39,9 @@ func bigIntToBytes(value *big.Int, padding int) (b []byte, padVal byte, padLen i
 }
 
 func bytesToBigInt(v []byte) *big.Int {
+	if len(v) == 0 {
+		return big.NewInt(0)
+	}
 	if bits.LeadingZeros8(v[0]) > 0 {
 		// Positive integer
 		bv := big.NewInt(0).SetBytes(v)
@@ -45,6 +49,8 @@ func bytesToBigInt(v []byte) *big.Int {
 	}
 	// Negative integer
 	bv := big.NewInt(0)
+	// Work on a copy: v is (a slice of) the caller's input buffer
+	v = slices.Clone(v)
 	carry := byte(1)
 	for i := len(v) - 1; i >= 0; i-- {
 		v[i] = ^(v[i] - carry)
